@@ -17,7 +17,7 @@ def factgen(cx, sh, goenv, harness, lean, tags):
     """regenerate lean/DrummerVerif/Gen/*.lean from /repo; returns an error string or None"""
     if not os.path.isdir(os.path.join(harness, "cmd", "factgen")):
         return None
-    rc, out = sh(["go", "run", "./cmd/factgen", "-repo", "/repo", "-out", os.path.join(lean, "DrummerVerif", "Gen")], cwd=harness, env=goenv, timeout=600)
+    rc, out = sh(["go", "run", "-tags", tags, "./cmd/factgen", "-repo", "/repo", "-out", os.path.join(lean, "DrummerVerif", "Gen")], cwd=harness, env=goenv, timeout=600)
     if rc != 0:
         return out[-1500:]
     return None
@@ -34,11 +34,49 @@ def dbstream(profile, nq, nt, sections=None, replicas=False, length=60):
             "args": {"quick": ["-n", str(nq), "-profile", profile, "-len", str(length)] + extra,
                      "thorough": ["-n", str(nt), "-profile", profile, "-len", str(length * 3)] + extra}}
 
+RULE_DB = "seeded command sequences on the real DB state machine (drummer.NewDB), reports drawn from a random linear membership history per shard (any version a replica could have seen; stale, duplicated, reordered, partial, pending) plus a malformed stream (1 in 5 sequences); a sequence is non-trivial when it has >= 4 commands; distinct = distinct seeds; profile %s"
+
 CHECKS = {
     "C13": {
         "lean": ["DrummerVerif.Props.C13"],
         "streams": [dbstream("c13", 250, 4000, ["res", "defs", "kv"]), dbstream("general", 150, 2000, ["res", "defs", "kv"])],
-        "rule": "seeded command sequences on the real DB (profile c13: KV writes over 7 keys x 3 instance ids x finalized or not, definitions over 4 ids, snapshots in the middle; profile general: all command kinds); a sequence is non-trivial when it has >= 4 commands; distinct = distinct seeds",
+        "rule": RULE_DB % "c13 (KV writes over 7 keys x 3 instance ids x finalized or not, definitions over 4 ids, snapshots in the middle) and general",
         "assumptions": DB_ASSUME,
+    },
+    "C10": {
+        "lean": ["DrummerVerif.Props.C10"],
+        "streams": [dbstream("c10", 250, 4000, ["res", "Requests", "Outgoing"]), dbstream("general", 150, 2000, ["res", "Requests", "Outgoing"])],
+        "rule": RULE_DB % "c10 (request batches for arbitrary subsets of up to 6 addresses, possibly empty, interleaved with reports; a lost reply = the host reports again) and general",
+        "assumptions": DB_ASSUME,
+    },
+    "C09": {
+        "lean": ["DrummerVerif.Props.C09"],
+        "streams": [dbstream("c09", 300, 5000, ["res", "T", "D", "F", "defs", "kv", "img"]), dbstream("general", 150, 2000, ["res", "T", "D", "F", "defs", "kv"])],
+        "rule": RULE_DB % "c09 (3 of 4 sequences are launch scenarios: definitions, launch batch, ticks with the completing reports placed one tick before / at / after the deadline, a member that never reports, repeated launch attempts, snapshots across the deadline, a reporting shard that is not defined) and general",
+        "assumptions": DB_ASSUME,
+    },
+    "C05": {
+        "lean": ["DrummerVerif.Props.C05"],
+        "streams": [dbstream("c05", 250, 4000, ["res", "T", "img", "hosts", "info", "states"]), dbstream("general", 150, 2000, ["res", "T", "img", "hosts", "info", "states"])],
+        "rule": RULE_DB % "c05 (silences of TTL-1 step, TTL, TTL+1 step between reports, reports at time 0, replicas that never report, hosts that stop and resume) and general; availability is read through the real SHARD_STATES query after every command",
+        "assumptions": DB_ASSUME,
+    },
+    "C04": {
+        "lean": ["DrummerVerif.Props.C04"],
+        "streams": [dbstream("c04", 250, 4000, ["res", "img", "states"]), dbstream("general", 150, 2000, ["res", "img", "states"])],
+        "rule": RULE_DB % "c04 (report heavy) and general",
+        "assumptions": DB_ASSUME,
+    },
+    "C11": {
+        "lean": ["DrummerVerif.Props.C11"],
+        "streams": [dbstream("c11", 250, 4000, ["res", "img", "kill"]), dbstream("general", 150, 2000, ["res", "img", "kill"])],
+        "rule": RULE_DB % "c11 (every second report of a non-member host carries a stray replica) and general",
+        "assumptions": DB_ASSUME,
+    },
+    "C03": {
+        "lean": ["DrummerVerif.Props.C03"],
+        "streams": [dbstream("c03", 250, 4000, None, replicas=True), dbstream("general", 150, 2000, None, replicas=True)],
+        "rule": RULE_DB % "c03 (snapshot heavy); every sequence is run on replica A (straight), replica B (restored from A's snapshot at a random prefix) and A' (a repeated run); results, hashes, dumps and the scheduler-context query are compared among the Go replicas and with the model",
+        "assumptions": DB_ASSUME + ["md5 collisions ignored (hashes compared as equal/unequal)"],
     },
 }
